@@ -113,8 +113,10 @@ JudgeReplaceExact(e) ==
       \* candidate selections: right size, explain exactly the missing atoms (pruning only; each is then checked in full)
       sels == {s \in SUBSET (1..n) : /\ IsNearest(Cardinality(s), e.fn, e.fd, n) /\ Cardinality(s) = e.count
                                      /\ UNION {delOf(a) : a \in s} = missing}
-      expected(s) ==
-        LET sq == SeqOfSet(s)
+      \* the matches are processed in an order the library is free to choose (it samples them at random): where two
+      \* replaced matches share a retained atom and give it different types, either type is a correct result
+      expectedO(sq) ==
+        LET s == Range(sq)
             msel == [j \in DOMAIN sq |-> ms[sq[j]]]
             Ms == [j \in DOMAIN sq |->
                      LET P == PosesFor(SP, msel[j])
@@ -124,6 +126,9 @@ JudgeReplaceExact(e) ==
             dels == UNION {DelSet(msel[j], ret, rall) : j \in DOMAIN sq}
         IN IF empty THEN DeleteA(S, UNION {Range(msel[j].keys) : j \in DOMAIN sq})
            ELSE DeleteA(InsertAll(S, SP, RP, msel, Ms, ret, rall), dels)
+      expected(s) == expectedO(SeqOfSet(s))
+      ordersOf(c) == IF Cardinality(c) \in 2..3 THEN {f \in [1..Cardinality(c) -> c] : \A a, b \in 1..Cardinality(c) : a # b => f[a] # f[b]}
+                     ELSE {SeqOfSet(c)}
       overlap(s) == ~empty /\ Overlapping([j \in DOMAIN SeqOfSet(s) |-> ms[SeqOfSet(s)[j]]], ret, rall)
       sizes == {k \in 0..n : IsNearest(k, e.fn, e.fd, n)}
   IN IF e.pre.wf # "ok" \/ ~WFK(e.pre) THEN "blocked:pre-state-malformed"
@@ -142,9 +147,11 @@ JudgeReplaceExact(e) ==
      ELSE IF sels = {} THEN "only-selected-matches-are-replaced"
      ELSE IF e.ignore # "yes" /\ \A s \in sels : overlap(s) THEN "overlap-not-refused"
      ELSE
-       LET s == IF \E c \in sels : NormBag(expected(c)) = NormBag(Y) THEN CHOOSE c \in sels : NormBag(expected(c)) = NormBag(Y)
-                ELSE CHOOSE c \in sels : TRUE
-           X == expected(s)
+       LET cands == UNION {{<<c, o>> : o \in ordersOf(c)} : c \in sels}
+           pick == IF \E p \in cands : NormBag(expectedO(p[2])) = NormBag(Y) THEN CHOOSE p \in cands : NormBag(expectedO(p[2])) = NormBag(Y)
+                   ELSE CHOOSE p \in cands : p[2] = SeqOfSet(p[1])
+           s == pick[1]
+           X == expectedO(pick[2])
            NX == NormA(X)
            NY == NormA(Y)
            newrows == {r \in Range(Y0.atoms) : r.id \in ids /\ Key(r) \notin Keys(S)}
